@@ -220,17 +220,21 @@ fn case2<T: Elem>(case: u64, args: &Args, ev: &mut Ev) {
     qs.push((x[rng.below(nx)], y[rng.below(ny)]));
     qs.push((x[rng.below(nx)], rand_in(&mut rng, y[0], y[ny - 1])));
     qs.push((x[nx - 1], y[ny - 1]));
-    if aliased {
-        // queries exactly on the diagonal qx == qy, inside both ranges
+    {
+        // queries exactly on the diagonal qx == qy, where the two ranges overlap
+        let lo = if x[0] > y[0] { x[0] } else { y[0] };
         let hi = if x[nx - 1] < y[ny - 1] { x[nx - 1] } else { y[ny - 1] };
-        for _ in 0..8 {
-            let q = rand_in(&mut rng, x[0], hi);
-            qs.push((q, q));
-        }
-        for k in 0..nx.min(4) {
-            if x[k] <= hi {
-                qs.push((x[k], x[k]));
+        if lo < hi {
+            for _ in 0..(if aliased { 8 } else { 4 }) {
+                let q = rand_in(&mut rng, lo, hi);
+                qs.push((q, q));
             }
+            for k in 0..nx.min(4) {
+                if x[k] >= lo && x[k] <= hi {
+                    qs.push((x[k], x[k]));
+                }
+            }
+            ev.add("diagonal_query_cases", 1);
         }
     }
     if extrapolate {
